@@ -172,7 +172,8 @@ def run(tier, seed):
                 "for each, the truncation, the byte-neighbours, the nibble-extremes of the last byte and the extensions by 00 / ff, plus next(); "
                 "nodes() compared with the canonical pre-order and with traverse(prefix); non-trivial = a query with a successor / a non-empty trie")
     rep.assumptions = ["alphabet of DESIGN §4"]
-    plans = [("H7xSL", dict(universe="H7", values=("S", "L"))), ("HW4xSL", dict(universe="HW4", values=("S", "L")))]
+    plans = [("H7xSL", dict(universe="H7", values=("S", "L"))), ("HW4xSL", dict(universe="HW4", values=("S", "L"))),
+             ("HSxSL (identical sub-tries)", dict(universe="HS", values=("S", "L")))]
     if tier == "thorough":
         plans = [("H7xSL", dict(universe="H7", values=("S", "L"))), ("H9xSL", dict(universe="H9", values=("S", "L"))),
                  ("HWxSL", dict(universe="HW", values=("S", "L"))), ("HSxSL", dict(universe="HS", values=("S", "L"))),
